@@ -40,9 +40,9 @@ FMT_NOTE = ("Trusted: Lean kernel and the axioms propext / Classical.choice / Qu
             "styles, tabdance, tooltip mode, Unicode case folding and invalid UTF-8 are outside the model.")
 
 PROPS = {
-    "C02": {"modules": ["Carapace.Props.C02"], "ops": [("value", {"quick": 6000, "thorough": 300000}), ("entrywb", {"quick": 300, "thorough": 6000})], "rule": FMT_RULE, "assumptions": FMT_ASSUME,
+    "C02": {"modules": ["Carapace.Props.C02", "Carapace.Props.C02Prefix"], "ops": [("value", {"quick": 6000, "thorough": 300000}), ("entrywb", {"quick": 300, "thorough": 6000})], "rule": FMT_RULE, "assumptions": FMT_ASSUME,
             "claimed": True, "engine": "fmt",
-            "level_text": ("Theorems over the model of the pipeline: the prefix filter is sound and complete (`filterPrefix_sound/complete`), the candidates handed to a formatter are exactly the invoked candidates extending the typed word - all of them under CARAPACE_UNFILTERED (`C02_pipeline_exact`, `C02_unfiltered_length`, `C02_nothing_added`), sanitising preserves 'extends the typed word' (`san_prefix`, `C02_fish_sound`); the bash/tcsh common-prefix step is proved harmless when not taken and its violation under case-insensitive matching is a decided counterexample and a listed finding. The model is bound to the code by exact comparison of the output of all 13 formatters on every generated case; the property oracle (every emitted text extends the typed word, every extending candidate is emitted, nothing else) is evaluated on the real output. The part of the word bash keeps is an input of that model; how the shipped entry point derives it - bash.Patch tokenising COMP_LINE with the user's COMP_WORDBREAKS - is decided on the real program (op `entrywb`: child processes under a bash ancestor that exports the variable like the snippet does; words with `@` `:` `=`, lists with and without those characters): every emitted candidate, put behind the part of the word bash keeps for that list, extends the typed word."),
+            "level_text": ("Theorems over the model of the pipeline: the prefix filter is sound and complete (`filterPrefix_sound/complete`), the candidates handed to a formatter are exactly the invoked candidates extending the typed word - all of them under CARAPACE_UNFILTERED (`C02_pipeline_exact`, `C02_unfiltered_length`, `C02_nothing_added`), sanitising preserves 'extends the typed word' (`san_prefix`, `C02_fish_sound`); the bash/tcsh common-prefix step is proved harmless when not taken and its violation under case-insensitive matching is a decided counterexample and a listed finding; `goCommonPrefix_eq` (C02Prefix.lean) shows that the Go function - common length of the UTF-8 bytes, cut back while it points at a continuation byte, as it reads since fix 18f19b1 - is the common prefix counted in characters which the formatter models use, and never leaves a partial character (lemmas: distinct characters have encodings that differ inside both, `enc_differ`; the back-off stops at character starts, `backoff_append` / `backoff_inside`); the version before the fix is a decided counterexample (`byte_prefix_splits_character`). The model is bound to the code by exact comparison of the output of all 13 formatters on every generated case; the property oracle (every emitted text extends the typed word, every extending candidate is emitted, nothing else) is evaluated on the real output. The part of the word bash keeps is an input of that model; how the shipped entry point derives it - bash.Patch tokenising COMP_LINE with the user's COMP_WORDBREAKS - is decided on the real program (op `entrywb`: child processes under a bash ancestor that exports the variable like the snippet does; words with `@` `:` `=`, lists with and without those characters): every emitted candidate, put behind the part of the word bash keeps for that list, extends the typed word."),
             "level_note": FMT_NOTE},
     "C03": {"modules": ["Carapace.Props.C03", "Carapace.Props.C03Shells", "Carapace.Props.C03Zsh"], "ops": [("value", {"quick": 6000, "thorough": 300000})], "rule": FMT_RULE, "assumptions": FMT_ASSUME,
             "claimed": True, "engine": "fmt",
